@@ -58,16 +58,20 @@ FieldDevs == {"coin_parent_junk", "coin_ph_junk", "coin_amt_plus2", "coin_amt_ev
               "amount_pad", "amount_9", "shortlid", "struct_dotted", "shape_three", "shape_one", "shape_raw", "inner_sol_other"}
 Devs == WorldDevs \cup FieldDevs
 \* deviations that leave a genuine singleton spend with matching lineage (the rule must still accept)
-Benign == {"amount_nc", "pamt_nc", "amount_pad", "inner_sol_other"}
+Benign == {"amount_nc", "pamt_nc", "amount_pad", "inner_sol_other", "sol_extra", "sol_dotted", "proof_dotted"}
 
 BaseSet ==
   IF Bases = "quick"
   THEN {[inner |-> "id", ci |-> ci, am |-> am, npp |-> 1] : ci \in {1, 2, 3, 6}, am \in {2, 3}}
        \cup {[inner |-> "quote", ci |-> 1, am |-> 3, npp |-> 2], [inner |-> "id", ci |-> 9, am |-> 2, npp |-> 2],
              [inner |-> "id", ci |-> 4, am |-> 4, npp |-> 3], [inner |-> "id", ci |-> 8, am |-> 5, npp |-> 1]}
+  ELSE IF Bases = "mid"
+  THEN {[inner |-> "id", ci |-> ci, am |-> 1 + (ci % 5), npp |-> 1 + (ci % 3)] : ci \in 1..10}
+       \cup {[inner |-> "id", ci |-> ci, am |-> 1 + ((ci + 2) % 5), npp |-> 1] : ci \in {1, 2, 3, 6}}
+       \cup {[inner |-> "quote", ci |-> ci, am |-> 1 + (ci % 5), npp |-> 2] : ci \in {1, 2, 4, 7, 10}}
   ELSE {[inner |-> "id", ci |-> ci, am |-> am, npp |-> npp] : ci \in 1..10, am \in 1..5, npp \in 1..3}
        \cup {[inner |-> "quote", ci |-> ci, am |-> am, npp |-> 1] : ci \in {1, 2, 4, 7, 10}, am \in 1..5}
-DevSets == {S \in SUBSET Devs : Cardinality(S) <= MaxDev}
+DevSets == {{}} \cup (IF MaxDev >= 1 THEN {{d} : d \in Devs} ELSE {}) \cup (IF MaxDev >= 2 THEN {{d, e} : d, e \in Devs} ELSE {})
 
 (* ---- from a world to the arguments of the call ---- *)
 Derive(b, devs) ==
@@ -126,7 +130,10 @@ Derive(b, devs) ==
 
 VARIABLES base, devs, phase
 vars == <<base, devs, phase>>
-Init == base \in BaseSet /\ devs \in DevSets /\ phase = 0
+\* deviations that only add ignored list tails (known finding C19_TAIL of the implementation): kept to a few worlds
+TailDevs == {"sol_extra", "sol_dotted", "proof_dotted"}
+Init == /\ base \in BaseSet /\ devs \in DevSets /\ phase = 0
+        /\ (devs \cap TailDevs # {}) => (base.ci = 1 /\ Cardinality(devs) = 1)
 Next == phase = 0 /\ phase' = 1 /\ UNCHANGED <<base, devs>>
 
 In == Derive(base, devs)
